@@ -22,6 +22,9 @@ PARTS = {
          "thorough": {"checks": 300000, "shards": 16, "timeout": 2400}},
     ],
     "C14": [
+        {"test": "TestVfC14Net", "replay_runs": 5,
+         "quick": {"checks": 360, "shards": 12, "timeout": 900},
+         "thorough": {"checks": 8000, "shards": 16, "timeout": 3000}},
         {"test": "TestVfC14Shutdown", "replay_runs": 20,
          "quick": {"checks": 12000, "shards": 4, "timeout": 900, "gomaxprocs": [16, 2, 16, 4]},
          "thorough": {"checks": 600000, "shards": 16, "timeout": 3000, "gomaxprocs": [16, 2, 1, 4]}},
@@ -30,7 +33,10 @@ PARTS = {
         {"test": "FuzzVfC12", "kind": "fuzz",
          "quick": {"shards": 1, "timeout": 300},
          "thorough": {"shards": 1, "timeout": 900, "fuzztime": "180s"}},
-        {"test": "TestVfC12Hostile", "inflight": True,
+        {"test": "TestVfC12Wire", "inflight": True,
+         "quick": {"checks": 600, "shards": 12, "timeout": 900},
+         "thorough": {"checks": 16000, "shards": 16, "timeout": 3000}},
+        {"test": "TestVfC12Hostile", "inflight": True, "stall_is_violation": True,
          "quick": {"checks": 2400, "shards": 4, "timeout": 900},
          "thorough": {"checks": 200000, "shards": 16, "timeout": 3000}},
     ],
@@ -38,6 +44,9 @@ PARTS = {
         {"test": "TestVfC13Reclaim",
          "quick": {"checks": 1500, "shards": 4, "timeout": 900},
          "thorough": {"checks": 100000, "shards": 16, "timeout": 3000}},
+        {"test": "TestVfC13Net",
+         "quick": {"checks": 480, "shards": 12, "timeout": 900},
+         "thorough": {"checks": 12000, "shards": 16, "timeout": 3000}},
     ],
     "C03": [
         {"test": "TestVfC03Signing",
@@ -102,7 +111,7 @@ PARTS = {
          "thorough": {"checks": 200000, "shards": 16, "timeout": 2400}},
     ],
     "C20": [
-        {"test": "TestVfC20bNode",
+        {"test": "TestVfC20bNode", "inflight": True, "stall_is_violation": True,
          "quick": {"checks": 3000, "shards": 4, "timeout": 600, "gomaxprocs": [16, 2, 16, 4]},
          "thorough": {"checks": 200000, "shards": 16, "timeout": 2400, "gomaxprocs": [16, 2, 1, 4]}},
         {"test": "TestVfC20aSeqno",
@@ -151,7 +160,13 @@ RULES = {
            "event loop (recover), in the built-in validator (recovering wrapper), in verifyMessageSignature, or anywhere else (process "
            "crash capture); after every RPC ListPeers answers within 1 s virtual and a fresh message from an honest peer is delivered. "
            "(Fuzz) arbitrary bytes -> RPC.Unmarshal -> the same node and oracle; quick tier runs the seed corpus, thorough tier 180 s of "
-           "native coverage-guided fuzzing on 16 workers. Non-trivial: the input decodes and reaches a handler. Distinct = case JSON / corpus entry.",
+           "native coverage-guided fuzzing on 16 workers. (Wire) a real node with an honest real peer and a skeleton attacker over simnet: "
+           "1-12 raw byte strings written to the attacker's pubsub stream - well-framed garbage, length prefixes beyond the (1 KiB / 64 "
+           "KiB / 1 MiB) message size limit, frames of exactly the limit and one byte more, over-long varints, truncated frames, empty "
+           "frames, decodable RPCs with hostile field values, honest RPCs - each optionally followed by close / reset / reopen; then the "
+           "honest peer's message must reach the node's subscription, the node's must reach the honest peer, ListPeers / GetTopics must "
+           "answer. Non-trivial: the input decodes and reaches a handler (Hostile, Fuzz); two or more frames (Wire). Distinct = case JSON "
+           "/ corpus entry.",
     "C13": "direct-driven gossipsub node with scoring, gater, test and partial-message extensions, peer exchange, tag tracer, automatic "
            "heartbeats and a slow / rejecting validator; one or two remote peers of every protocol version (one optionally a configured "
            "direct peer) plus a bystander; histories (<= 40 ops) of outbound open / close / reset-with-connection-kept / repeated "
@@ -160,8 +175,12 @@ RULES = {
            "validation finishing after the disconnect), blacklisting, heartbeats, time; then final disconnect and 3-12 virtual minutes of "
            "retention. Oracle: the peer ID is absent from an explicit list of 25 maps, from a reflection walk over the whole PubSub "
            "object graph, and from the connection manager's protections (configuration such as the direct-peer set and the blacklist "
-           "exempt). Non-trivial: an RPC after the outbound close, streams closed in another order than opened, or a validation that may "
-           "outlive the connection. Distinct = case JSON.",
+           "exempt). (NET) the same absence oracle (reflection walk + a recording connection manager) on a real node over simnet with "
+           "a bystander and the observed peer, which is a skeleton of any protocol version (opens, closes, resets either stream in any "
+           "order, refuses the node's respawned streams, sends subscriptions / GRAFT / PRUNE / IHAVE / IDONTWANT / messages incl. slow "
+           "validation on a stream that outlives the other direction) or a real node (subscribe, publish, stream resets, disconnect); "
+           "3 or 12 virtual minutes of retention. Non-trivial: an RPC after the outbound close, streams closed in another order than "
+           "opened, the dead-peer back-off used, or a validation that may outlive the connection. Distinct = case JSON.",
     "C01": "(NET) 2-10 real nodes on full libp2p hosts over simnet with generated per-link latencies (1-50 ms); routers all-gossipsub, "
            "all-floodsub, all-randomsub or mixed; gossipsub parameters: defaults, (D 2, Dlo 1, Dhi 2) or (D 4, Dlo 2, Dhi 5), flood "
            "publishing on or off; roles per node: 1 or 2 subscriptions, relay only, relay + subscription, none (outside publisher); "
@@ -208,8 +227,12 @@ RULES = {
            "the constructor's context is cancelled before the k-th call, at a virtual instant, or by a separate goroutine after a "
            "generated number of yields; after shutdown each API is called again 1, 2, 3 or 40 times in a row. Oracle: 60 virtual seconds "
            "later every call has returned, no call panicked, no mutex reachable from the PubSub / Topic / Subscription / handler "
-           "objects is left locked at quiescence, and when the case ends the bubble has no blocked goroutine left. Non-trivial: at "
-           "least one call was in progress at the instant of cancellation. Distinct = case JSON.",
+           "objects is left locked at quiescence, and when the case ends the bubble has no blocked goroutine left. (NET) 2-4 real "
+           "nodes over simnet publishing every 13-150 ms (optionally with a 120 ms validator), a skeleton peer writing 10-400 RPCs to "
+           "node 0 around the cancellation, connect / disconnect / stream-reset churn; node 0's context is cancelled at a generated "
+           "virtual instant; its API is called again; the hosts are closed: same oracle, and a goroutine left in library code (comm.go's "
+           "stream readers and writers included) is a violation. Non-trivial: at least one call was in progress at the instant of "
+           "cancellation (DD); cancelled under traffic (NET). Distinct = case JSON.",
     "C03": "direct-driven floodsub node under each signature policy (StrictSign, StrictNoSign, LaxSign, LaxNoSign) x author mode (default, "
            "custom author with key in the peerstore, anonymous); 1-12 messages per case: honestly signed messages of three remote authors "
            "(two ed25519 with extractable key, one ECDSA with attached key) forwarded by the author or another peer and hit by 0-3 of 20 "
@@ -348,7 +371,7 @@ ASSUMPTIONS = {
     "C16": ["messages already inside the validation pipeline at the moment are don't-care (the statement speaks of messages received from that moment on)",
             "in-flight allowance: one one-way latency + 25 ms, for RPCs written and streams opened (lazily negotiated) just before the moment",
             "the time-cached blacklist is given a one-hour expiry, longer than any case"],
-    "C14": ["direct-drive replaces comm.go's per-stream goroutines by the harness, so their termination is not covered here",
+    "C14": ["the direct-drive part replaces comm.go's per-stream goroutines by the harness; the NET part runs them",
             "inside a synctest bubble a goroutine waiting for a sync.Mutex freezes the virtual clock, so callers of Topic.Close / SetScoreParams are serialised against the other calls on the same handle by the harness (on channels) and the real mutex is probed with TryLock instead; a frozen bubble is reported as inconclusive (exit 2), never as a violation",
             "calls that wait by contract on the caller's context (Next, NextPeerEvent, Publish with readiness) get a 150 ms caller deadline",
             "which goroutine wins a race is up to the Go scheduler: a schedule-dependent violation is found with a probability per run, and its replay file is re-run 20 times"],
